@@ -173,7 +173,7 @@ def make_cases(args, rng, meta):
     logics = [l for l in (QUICK_LOGICS if quick else QUICK_LOGICS + MORE_LOGICS) if l in meta['logic_names']]
     pairs = [(l, a) for l in logics for a in meta['examples']]
     rng.shuffle(pairs)
-    pairs = pairs[:220 if quick else 1400]
+    pairs = pairs[:220 if quick else 2600]
     # measure n first
     ms = run_probe_parallel([dict(logic=l, arg=a, opts={}, ops=[]) for l, a in pairs])
     cases = []
@@ -191,9 +191,9 @@ def make_cases(args, rng, meta):
         L = rng.randint(1, n + 1)
         cases.append(dict(logic=l, arg=a, opts=dict(max_steps=L), family='step-walk',
                           ops=[['set_argument'], ['set_logic']] + [['step', False, False]] * (min(n, L) + 2) + [['finish', False]]))
-        for _ in range(3 if quick else 6):
+        for _ in range(3 if quick else 10):
             o = rand_opts(rng, n)
-            cases.append(dict(logic=l, arg=a, opts=o, ops=rand_ops(rng, n, o, 12), family='random'))
+            cases.append(dict(logic=l, arg=a, opts=o, ops=rand_ops(rng, n, o, 12 if quick else 16), family='random'))
     return cases
 
 
